@@ -180,7 +180,7 @@ func genHostileExpr(t *rapid.T, depth int) (interface{}, string) {
 }
 
 func genChainOp(t *rapid.T, healthyPossible bool) chainOp {
-	switch rapid.IntRange(0, 21).Draw(t, "op") {
+	switch rapid.IntRange(0, 22).Draw(t, "op") {
 	case 0, 1, 2:
 		cl, d := genHostileFilterClause(t, 2)
 		return chainOp{desc: d, run: func(qf qframe.QFrame) qframe.QFrame { return qf.Filter(cl) }}
@@ -403,6 +403,37 @@ func genChainOp(t *rapid.T, healthyPossible bool) chainOp {
 		o := ops[k]
 		o.mustErr = true
 		return o
+	case 21:
+		// the sub-clauses of And form a chain of their own: after the first one failed none of
+		// the later ones may run a callback, and the first error is the one reported
+		k := rapid.IntRange(0, 2).Draw(t, "andprobe")
+		fn := hx.PredFns[rapid.IntRange(0, len(hx.PredFns)-1).Draw(t, "andfn")].I1
+		bad := qframe.Filter{Column: "never-created-col", Comparator: "=", Arg: 1}
+		cb := qframe.Filter{Column: "ti", Comparator: fn}
+		var clause qframe.FilterClause
+		switch k {
+		case 0:
+			clause = qframe.And(bad, cb)
+		case 1:
+			clause = qframe.And(qframe.Filter{Column: "ti", Comparator: ">=", Arg: 0}, bad, cb, cb)
+		default:
+			clause = qframe.Not(qframe.And(bad, qframe.Filter{Column: "also-never-created", Comparator: "=", Arg: 1}, cb))
+		}
+		return chainOp{desc: fmt.Sprintf("And(unknown column, callback filter) probe %d", k), mustErr: true, run: func(qf qframe.QFrame) qframe.QFrame {
+			tq := qf.Apply(qframe.Instruction{Fn: 1, DstCol: "ti"})
+			if tq.Err != nil {
+				return tq
+			}
+			before := callbacks()
+			res := tq.Filter(clause)
+			if res.Err != nil && callbacks() != before {
+				panic("VIOLATION: a callback of a later And sub-clause ran after an earlier sub-clause had failed")
+			}
+			if res.Err != nil && !strings.Contains(res.Err.Error(), "never-created-col") {
+				panic("VIOLATION: the error of the first failing And sub-clause was replaced: " + res.Err.Error())
+			}
+			return res
+		}}
 	default:
 		// a perfectly valid step that would invoke callbacks: makes stickiness observable
 		return chainOp{desc: "valid Apply+Filter with callbacks", run: func(qf qframe.QFrame) qframe.QFrame {
